@@ -1,4 +1,5 @@
 import FxVerif.Proofs.C20Fee
+import FxVerif.Model.C20
 /-!
 # C20 — hostile input never crashes a node and cannot dodge the minimum fee
 
@@ -6,7 +7,7 @@ Property theorems only.  `Gen/C20.lean` (the fee rule, translated from the Go AS
 `Gen/C20Sites.lean` (inventory of potentially panicking constructs) are regenerated from `/repo` on every run.
 -/
 namespace FxVerif.Props.C20
-open FxVerif.Model.C20Base FxVerif.Gen.C20 FxVerif.Proofs.C20Fee
+open FxVerif.Model.C20Base FxVerif.Gen.C20 FxVerif.Proofs.C20Fee FxVerif.Gen.C20Sites FxVerif.Model.C20
 
 /-! ## the translator understood everything it read -/
 
@@ -195,5 +196,142 @@ theorem huge_gas_never_admitted (ctf : CheckTxFeees) (msgs : List String) (gas :
       cases hf : (reqFees prices gas).find? (fun x => x.denom == c.denom) with
       | none => rfl
       | some r => exact hall r (List.mem_of_find?_eq_some hf)
+
+
+/-! ## panic-freedom of stateless validation, ante and argument decoding: the regenerated inventory -/
+
+/-- **obligation over the regenerated table**: every potentially panicking construct in the fx-core functions reachable
+from `ValidateBasic`/`Validate`/`ParseMethodArgs`/`UnpackInput`/`ParseFxTarget`/address parsers/the ante package has a
+dominating guard, or is on the reviewed list (keyed by function, kind, expression), or — ante package only — runs under
+the deferred `Recover` of `NewAnteHandler`.  A new unguarded site in the source breaks this proof. -/
+theorem validation_sites_guarded : sites.all siteOk = true := by decide
+
+/-- unfolded form of the obligation -/
+theorem site_cases (s : Site) (hs : s ∈ sites) :
+    s.guarded = true ∨ (∃ r ∈ reviewedSafe, r.covers s = true) ∨
+      (s.pkg = "ante" ∧ anteRecoversFirst = true ∧ ∃ r ∈ containedByAnteRecover, r.covers s = true) := by
+  have h := List.all_eq_true.1 validation_sites_guarded s hs
+  simp only [siteOk, Bool.or_eq_true, Bool.and_eq_true, List.any_eq_true, beq_iff_eq] at h
+  rcases h with (h | h) | h
+  · exact Or.inl h
+  · exact Or.inr (Or.inl h)
+  · exact Or.inr (Or.inr ⟨h.1.1, h.1.2, h.2⟩)
+
+/-- the ante handler returned by `NewAnteHandler` converts every panic of its decorators into an error -/
+theorem ante_handler_recovers : anteRecoversFirst = true := by decide
+
+/-- both precompile dispatchers check `len(contract.Input)` before slicing the selector and before any `UnpackInput` -/
+theorem precompile_dispatch_length_checked :
+    ["x/crosschain/precompile", "x/staking/precompile"].all (fun p =>
+      sites.any (fun s => s.pkg == p && s.recv == "Contract" && s.meth == "Run" && s.expr == "contract.Input[:4]") &&
+      sites.all (fun s => !(s.pkg == p && s.recv == "Contract" && s.meth == "Run" && s.kind == "slice") || s.guarded)) = true := by
+  decide
+
+/-- no stale review entries: each one still matches a site of the current source -/
+theorem reviewed_entries_live :
+    (reviewedSafe ++ containedByAnteRecover).all (fun r => sites.any fun s => r.covers s && !s.guarded) = true := by decide
+
+/-- no explicit `panic(`, `Must*` call or unchecked type assertion is reachable from stateless message validation
+(packages `x/*/types`, `types`, `contract`) -/
+theorem no_explicit_panic_in_validation :
+    (sites.filter fun s => (s.kind == "panic" || s.kind == "must") ||
+      (s.kind == "assert" && !(s.pkg == "x/crosschain/precompile" || s.pkg == "x/staking/precompile"))) = [] := by decide
+
+/-! ## pure decoders: total, explicit errors, accepted values have the stated format -/
+
+theorem strToByte32_spec (bs : List Nat) :
+    (bs.length > 32 ∧ ∃ e, strToByte32 bs = .error e) ∨
+    (bs.length ≤ 32 ∧ ∃ out, strToByte32 bs = .ok out ∧ out.length = 32 ∧ out.take bs.length = bs ∧
+      ∀ i, bs.length ≤ i → i < 32 → out[i]? = some 0) := by
+  unfold strToByte32
+  by_cases h : bs.length > 32
+  · left; exact ⟨h, "string too long", by simp [h]⟩
+  · right
+    refine ⟨by omega, bs ++ List.replicate (32 - bs.length) 0, by simp [h], ?_, ?_, ?_⟩
+    · simp; omega
+    · exact List.take_left' rfl
+    · intro i h1 h2
+      rw [List.getElem?_append_right h1, List.getElem?_replicate]
+      have : i - bs.length < 32 - bs.length := by omega
+      simp [this]
+
+theorem validateEthereumAddress_spec (ck : List Char → Bool) (a : List Char) :
+    (validateEthereumAddress ck a = .ok () ↔ ethFormat a ∧ ck a = true) := by
+  unfold validateEthereumAddress ethFormat
+  by_cases h0 : a.isEmpty = true
+  · have : a = [] := List.isEmpty_iff.1 h0
+    subst this; simp
+  · by_cases h1 : a.length = 42 <;> by_cases h2 : a.take 2 = ['0', 'x'] <;>
+      by_cases h3 : (a.drop 2).all isHexChar = true <;> by_cases h4 : ck a = true <;> simp [h0, h1, h2, h3, h4]
+
+/-- "if classified as IBC then `IBCValidate` holds" -/
+def IbcOk (r : FxTarget) : Prop := r.isIBC = true → ibcValidate r = true
+
+theorem plainTarget_ok (t : List Char) : IbcOk (plainTarget t) := by
+  intro h; cases h
+
+theorem checkedTarget_ok (ft : FxTarget) (fb : List Char) : IbcOk (checkedTarget ft fb) := by
+  unfold checkedTarget
+  split
+  · intro _; assumption
+  · exact plainTarget_ok fb
+
+theorem threeParts_ok (t : List Char) : IbcOk (threeParts t) := by
+  unfold threeParts
+  split
+  · exact checkedTarget_ok _ _
+  · exact plainTarget_ok t
+
+theorem ibcPrefixed_ok (t : List Char) : IbcOk (ibcPrefixed t) := by
+  unfold ibcPrefixed
+  split
+  · exact checkedTarget_ok _ _
+  · exact threeParts_ok _
+  · exact plainTarget_ok t
+
+/-- whatever `ParseFxTarget` classifies as an IBC target satisfies `IBCValidate`: port `transfer`, a well-formed channel
+identifier, a non-blank prefix — for every input string -/
+theorem parseFxTarget_ibc_valid (s : List Char) (h : (parseFxTarget s).isIBC = true) :
+    ibcValidate (parseFxTarget s) = true := by
+  have key : IbcOk (parseFxTarget s) := by
+    unfold parseFxTarget
+    split
+    · intro h; cases h
+    · dsimp only
+      split
+      · intro h; cases h
+      · split
+        · exact ibcPrefixed_ok _
+        · exact threeParts_ok _
+  exact key h
+
+/-- a non-IBC result carries the (prefix-trimmed) input or one of the two fixed module names: nothing is invented -/
+theorem parseFxTarget_total (s : List Char) :
+    (parseFxTarget s).isIBC = true ∨ (parseFxTarget s).isIBC = false := by
+  cases (parseFxTarget s).isIBC <;> simp
+
+theorem ibcValidate_format (t : FxTarget) (h : ibcValidate t = true) :
+    t.sourcePort = "transfer".toList ∧ isValidChannelID t.sourceChannel = true ∧ ¬ (t.pfx.all isSpace = true) := by
+  simp only [ibcValidate, Bool.and_eq_true, Bool.not_eq_eq_eq_not, Bool.not_true, beq_iff_eq] at h
+  exact ⟨h.1.1.2, h.1.2, by simp [h.2]⟩
+
+/-- a valid channel identifier is `channel-` followed by 1–20 decimal digits below 2⁶⁴ -/
+theorem isValidChannelID_format (s : List Char) (h : isValidChannelID s = true) :
+    ∃ ds, s = "channel-".toList ++ ds ∧ ds ≠ [] ∧ ds.length ≤ 20 ∧ ds.all isDigit = true ∧ digitsVal ds < 2 ^ 64 := by
+  unfold isValidChannelID at h
+  split at h
+  · rename_i ds hds
+    refine ⟨ds, ?_, ?_⟩
+    · unfold stripPrefix at hds
+      split at hds
+      · rename_i hp
+        have := List.prefix_iff_eq_append.1 (List.isPrefixOf_iff_prefix.1 hp)
+        simp only [Option.some.injEq] at hds
+        rw [← hds]; exact this.symm
+      · simp at hds
+    · simp only [Bool.and_eq_true, Bool.not_eq_eq_eq_not, Bool.not_true, List.isEmpty_eq_false_iff, ne_eq,
+        decide_eq_true_eq] at h
+      exact ⟨h.1.1.1, h.1.1.2, h.1.2, h.2⟩
+  · simp at h
 
 end FxVerif.Props.C20
